@@ -385,7 +385,8 @@ theorem naive_finishing_order_is_false :
     (reachFrom g4 3).contains 2 = true ∧ (reachFrom g4 2).contains 3 = false := by decide
 
 /-- a `Graph` value that is not well formed (an edge record whose destination is not a vertex — the loader
-accepts such a file silently) makes the analysis report an id that is not a vertex; such values are outside
+refuses such a file since the endpoint check of `graph_loader.rs`, so only a hand-built value has this
+shape) makes the analysis report an id that is not a vertex; such values are outside
 the property ("directed graph") and outside the theorems above -/
 example : (match allScc { n := 2, edges := #[(0, 1), (1, 5)], adj := #[[0], [1]], rev := #[[], [0]] } with
     | .ok cs => cs.any (fun c => c.contains 5)
